@@ -42,6 +42,7 @@ pub struct OpWeights {
     pub dropgen: u32,
     pub rebuild: u32,
     pub inplace: u32,
+    pub reloadbad: u32,
 }
 
 impl Swarm {
@@ -151,7 +152,17 @@ pub fn valid_weights(r: &mut Rng, n: usize) -> Vec<f64> {
     }
     for _ in 0..20 {
         let mut w: Vec<f64> = Vec::with_capacity(n);
-        match r.below(6) {
+        match r.below(7) {
+            6 if n >= 2 => {
+                // a tiny but exactly representable component: [1 - 2^-k, 2^-k, 0, ...] sums to exactly 1
+                let k = r.range(20, 40) as i32;
+                let t = 2f64.powi(-k);
+                w = vec![0.0; n];
+                let p0 = r.below(n);
+                let p1 = (p0 + 1 + r.below(n - 1)) % n;
+                w[p0] = 1.0 - t;
+                w[p1] = t;
+            }
             0 => {
                 // simplex vertex
                 let k = r.below(n);
@@ -181,7 +192,25 @@ pub fn valid_weights(r: &mut Rng, n: usize) -> Vec<f64> {
 
 /// a clearly invalid weight vector for n voices; returns (vector, kind)
 pub fn invalid_weights(r: &mut Rng, n: usize) -> Vec<f64> {
-    match r.below(7) {
+    match r.below(8) {
+        7 if n >= 2 => {
+            // the error is spread over several components, each of them tiny (< 1e-6), the total >= 1e-6
+            let mut w: Vec<f64> = (0..n).map(|i| if i == 0 { 1.0 } else { 0.0 }).collect();
+            let p0 = r.below(n);
+            w.swap(0, p0);
+            let e = *r.pick(&[6.0e-7, 7.5e-7, 9.0e-7, -6.0e-7, -9.0e-7]);
+            let mut placed = 0;
+            for i in 0..n {
+                if i != p0 && placed < 3 {
+                    w[i] += e;
+                    placed += 1;
+                }
+            }
+            if placed < 2 {
+                w[p0] += e; // two voices: the second share of the error sits on the large component
+            }
+            w
+        }
         6 if n >= 2 => {
             // large components that cancel: [B, (1+d)-B, 0, ...] with B = 2^k and d = +-2^-j chosen so that
             // every value and the left-to-right sum 1+d are exact in f64 and |d| >= 1e-6. A tolerance that
@@ -396,6 +425,7 @@ pub fn swarm(prop: Prop, r: &mut Rng, pools: &Pools, corpus_len: usize) -> Swarm
             w.clone = if profile == "clone_heavy" { 15 } else { 3 };
             w.clone_from = if profile == "clone_heavy" { 8 } else { 2 };
             w.reload = 2;
+            w.reloadbad = 2;
             w.rebuild = 3;
             w.dropengine = 1;
             w.setw_valid = 2;
@@ -412,6 +442,7 @@ pub fn swarm(prop: Prop, r: &mut Rng, pools: &Pools, corpus_len: usize) -> Swarm
             w.clone = 3;
             w.clone_from = 2;
             w.reload = 3;
+            w.reloadbad = 1;
             w.rebuild = 2;
             w.set = 3;
             w.dropengine = 1;
@@ -468,15 +499,35 @@ pub fn swarm(prop: Prop, r: &mut Rng, pools: &Pools, corpus_len: usize) -> Swarm
         let extra_long = r.chance(0.25);
         let n = if extra_long { r.range(200, 320) } else { r.range(80, 120) };
         let start = r.below(corpus_len - n);
-        let long = Utt { lines: (start..start + n).map(|x| x as u32).collect(), timed: 0 };
+        let mut long = Utt { lines: (start..start + n).map(|x| x as u32).collect(), timed: 0 };
         let mi = 0;
         let v = VoiceRef::Gen(VoiceSpec { meta: metas[mi].0.clone(), body: pools.body(metas[mi].1, 0) });
         prelude.push(TOp { task: 0, op: Op::Load { e: 0, voices: vec![v], via_files: false } });
-        prelude.push(TOp { task: 0, op: Op::Set { e: 0, s: Setter::Speed(*r.pick(&[0.25, 0.3, 0.5])) } });
-        prelude.push(TOp { task: 0, op: Op::Set { e: 0, s: Setter::Fperiod(*r.pick(&[60, 80, 120, 240, 480])) } });
+        // many-frames variant (C02): the frame COUNT crosses 2^16 / 2^17 while the audio stays short - time-aligned
+        // labels of tens of milliseconds each at a frame period of 1-4 samples
+        let many_frames = prop == Prop::C02 && r.chance(0.15);
+        if many_frames {
+            let fp = *r.pick(&[1usize, 2, 4]);
+            let target = *r.pick(&[65_600usize, 66_000, 70_000, 131_200]);
+            let nl = 100usize;
+            let per_label = target.div_ceil(nl);
+            let ms = (per_label * fp * 1000).div_ceil(metas[mi].0.rate.max(1)).max(1);
+            long = Utt { lines: (start..start + nl.min(n)).map(|x| x as u32).collect(), timed: ms as u32 };
+            prelude.push(TOp { task: 0, op: Op::Set { e: 0, s: Setter::Align(true) } });
+            prelude.push(TOp { task: 0, op: Op::Set { e: 0, s: Setter::Fperiod(fp) } });
+        } else {
+            prelude.push(TOp { task: 0, op: Op::Set { e: 0, s: Setter::Speed(*r.pick(&[0.25, 0.3, 0.5])) } });
+            prelude.push(TOp { task: 0, op: Op::Set { e: 0, s: Setter::Fperiod(*r.pick(&[60, 80, 120, 240, 480])) } });
+        }
         if prop == Prop::C02 {
             prelude.push(TOp { task: 0, op: Op::NewGen { e: 0, g: 0, utt: long.clone() } });
-            let max = if extra_long { *r.pick(&[4095, 4096, 4097, 8191, 8192, 8193, 9000, 16384, 16385]) } else { *r.pick(&[1023, 1024, 1100, 2500, 4096, 4097]) };
+            let max = if many_frames {
+                *r.pick(&[65_535, 65_536, 65_537, 66_000])
+            } else if extra_long {
+                *r.pick(&[4095, 4096, 4097, 8191, 8192, 8193, 9000, 16384, 16385])
+            } else {
+                *r.pick(&[1023, 1024, 1100, 2500, 4096, 4097])
+            };
             prelude.push(TOp { task: 0, op: Op::Drain { g: 0, max } });
             prelude.push(TOp { task: 0, op: Op::Query { g: 0 } });
             prelude.push(TOp { task: 1, op: Op::Finish { g: 0 } });
@@ -711,6 +762,7 @@ impl Gen {
             w.reload,
             w.rebuild,
             w.inplace,
+            w.reloadbad,
         ];
         let k = self.r.weighted(&weights);
         let e = *self.r.pick(&occupied_e);
@@ -850,6 +902,7 @@ impl Gen {
                 Op::CloneFrom { src: e, dst }
             }
             16 => Op::Reload { e, voices: self.voices_for_load() },
+            19 => Op::ReloadBad { e, kind: self.r.below(3) as u8 },
             17 => Op::Rebuild { e, how: if self.sw.profile == "identity" { *self.r.pick(&[3u8, 3, 3, 4, 0]) } else { self.r.below(5) as u8 } },
             18 => {
                 // other voices of the same metadata (other bodies), as many as the engine has
